@@ -78,11 +78,17 @@ def descs():
                       constants={"k": 7}, resources={"r": 9},
                       attrs={"note": "hello", "n": 3},
                       vars={"out": ((), lambda v: v)}),
+        # values that are falsy but perfectly good constants / attributes
+        "falsy": dict(kind="num", vn=["out"], vd=[None],
+                      constants={"k": 0, "flag": False, "tag": ""},
+                      resources={"r": 0},
+                      attrs={"note": "", "n": 0},
+                      vars={"out": ((), lambda v: v)}),
     }
 
 
 DESCS = descs()
-DF_OK = ("scalar", "strout", "two", "attrs")
+DF_OK = ("scalar", "strout", "two", "attrs", "falsy")
 
 
 def inputs(tier):
@@ -217,6 +223,14 @@ def check_case(case):
                         items = list(zip(cnames, c_))
                         r_ = n_ % len(items)
                         dcs.append(dict(items[r_:] + items[:r_]))
+                    # (the caller sweeps the very same list of case dicts
+                    # twice; the second sweep is the one judged)
+                    with xfn.CallLog():
+                        xyz.case_runner_to_ds(
+                            f, None, dcs, combos=copy.deepcopy(combos),
+                            to_df=to_df, **copy.deepcopy(desc_kw),
+                            **{k_: v_ for k_, v_ in kw.items()
+                               if k_ != "executor"})
                     out = xyz.case_runner_to_ds(
                         f, None, dcs, combos=combos, to_df=to_df,
                         **desc_kw, **kw)
